@@ -4,6 +4,8 @@ from ..e1 import src_line
 from ..facts import REPO
 from ..rules_e1 import run_e1
 import os
+from .. import mir
+from ..term import Terms, show
 from ..rules_dep import run_dep
 from ..rules_signpair import run_loneabs
 
@@ -39,6 +41,7 @@ def find_arms():
 def run(ctx, rep):
     run_dep(ctx, rep, "C15")
     run_loneabs(ctx, rep)
+    whole_sign(rep, ctx.prog("Q"))
     prog = ctx.prog("Q")
     rep.notes.append("Does not decide numeric round trips, fraction carry or option interactions.")
     rep.rule("LABEL-TABLE", "for each of the 7 designator arrays D of the friendly printer and each unit index i, first-match evaluation of "
@@ -121,3 +124,32 @@ def no_drop(rep, prog, rule="NO-DROP"):
                     rep.violation(rule, key, "this FractionalPrinter is built from %s only: the %s of the duration never reaches the output"
                                   % (sorted(calls), "whole seconds" if not (calls & set(SECS)) else "sub-second part"), "%s:%s" % (f.file, s.get("ln")))
     rep.floor(rule + " arms", n, 5)
+
+
+def whole_sign(rep, prog, rule="WHOLE-SIGN"):
+    """the one sign the friendly printer writes (prefix `-` or suffix `ago`) is the sign of the whole value"""
+    rep.rule(rule, "every DesignatorWriter the friendly printer creates receives signum() of the span / duration that the printing "
+                   "function was given, not of a part of it (Span::only_time()/only_calendar() reset the sign to 0 when their side "
+                   "is empty, so the sign of -1 day would be lost in HH:MM:SS mode); print_duration_hms, which has no writer, reads "
+                   "is_negative() of its own argument")
+    n = 0
+    for f in sorted(prog.fns.values(), key=lambda f: f.key):
+        if f.crate != "jiff" or f.is_closure or "fmt::friendly::printer::SpanPrinter::" not in f.path:
+            continue
+        T = None
+        for bi, t in mir.iter_calls(f):
+            p = t.get("path", "")
+            if "DesignatorWriter" in p and p.endswith("::new") and len(t.get("args", [])) == 4:
+                T = T or Terms(f)
+                n += 1
+                sg = T.at_call(bi, t, 3)
+                key = "%s DesignatorWriter::new" % f.path.split("::")[-1]
+                loc = "%s:%s" % (t["span"]["file"], t["span"]["line"])
+                ok = sg[0] == "call" and sg[1].rsplit("::", 1)[-1] == "signum" and len(sg[2]) == 1 and sg[2][0][0] == "param" \
+                    and sg[2][0][2] in ("span", "dur", "duration")
+                if ok:
+                    rep.ok(rule, key, how="signum(%s)" % sg[2][0][2], loc=loc)
+                else:
+                    rep.violation(rule, key, "the sign handed to the writer is %s, not signum() of the function's own span/duration"
+                                  % show(sg, maxd=4)[:120], loc)
+    rep.floor(rule + " writers", n, 3)
